@@ -16,7 +16,10 @@
 use anyhow::{anyhow, bail, Result};
 use serde_json::{json, Map, Value};
 use sha2::{Digest, Sha256};
+#[cfg(not(melda_verif))]
 use std::collections::HashMap;
+#[cfg(melda_verif)]
+use melda_verif_shim::collections::HashMap;
 use yavomrs::yavom::{myers_unfilled, Move, Point};
 
 use crate::constants::{
